@@ -1,9 +1,9 @@
 package props
 
 import (
-	"go/types"
 	"fmt"
 	"go/token"
+	"go/types"
 	"strings"
 
 	"ndndcheck/core"
@@ -343,8 +343,25 @@ func C19(c *core.Ctx) {
 		// a multi-homed prefix is the concatenation of several routers' next hops, each best
 		// first: a router without a finite second-best is followed by other routers' hops)
 		{
+			uhRoot := uh
 			nSkip, ended := 0, ""
-			for _, f := range core.EdgeFacts(uh, gone) {
+			// (the merge may sit in a helper that is given the installed and the desired list)
+			type gf struct {
+				g *ssa.Function
+				f core.EdgeFact
+			}
+			var facts []gf
+			restoreRoot := core.WithRoot(uh)
+			for _, g := range core.Reach(uh) {
+				if g.Blocks == nil {
+					continue
+				}
+				for _, f := range core.EdgeFacts(g, gone) {
+					facts = append(facts, gf{g, f})
+				}
+			}
+			for _, x := range facts {
+				f, uh := x.f, x.g
 				if !f.Holds {
 					continue
 				}
@@ -368,8 +385,10 @@ func C19(c *core.Ctx) {
 				// the loop's collection: length compared in the header comes from the parameter
 				for _, in := range h.Instrs {
 					if b, ok := in.(*ssa.BinOp); ok && b.Op == token.LSS {
-						if l, isLen := core.LenOf(core.StripConv(b.Y)); isLen && len(uh.Params) >= 4 && core.Strip(l) == ssa.Value(uh.Params[3]) {
-							isParamScan = true
+						if l, isLen := core.LenOf(core.StripConv(b.Y)); isLen {
+							if prm, isP := core.Strip(l).(*ssa.Parameter); isP && len(uhRoot.Params) >= 4 && (prm == uhRoot.Params[3] || core.Strip(core.Resolve(prm)) == ssa.Value(uhRoot.Params[3])) {
+								isParamScan = true
+							}
 						}
 					}
 				}
@@ -381,6 +400,7 @@ func C19(c *core.Ctx) {
 					ended = c.Pos(f.E.From.Instrs[len(f.E.From.Instrs)-1])
 				}
 			}
+			restoreRoot()
 			c.Decide(nSkip > 0 && ended == "", "R19.2", "merge-scans-all-desired-entries", p.Pos(uh.Pos()), "an infinite-cost desired entry is passed over and the scan continues", "UpdateH stops merging the desired next hops at the first infinite-cost entry ("+ended+"): for a prefix announced by several routers, the faces of every router listed after one that has no finite second-best next hop are never installed")
 		}
 		g1 := core.GateDeep(uh, unreg, pos(gone))
@@ -512,6 +532,43 @@ func C19(c *core.Ctx) {
 				return
 			}
 			nRet++
+			// a list built in this call (make / literal / append onto those) is not a
+			// remembered one, wherever the look-ups sit (inside a loop over the two next
+			// hops, the return is not "preceded" path-insensitively)
+			fresh := func(v ssa.Value) bool {
+				seen := map[ssa.Value]bool{}
+				var w func(v ssa.Value) bool
+				w = func(v ssa.Value) bool {
+					v = core.Strip(v)
+					if seen[v] {
+						return true
+					}
+					seen[v] = true
+					switch x := v.(type) {
+					case *ssa.MakeSlice:
+						return true
+					case *ssa.Slice:
+						_, isAl := core.Strip(x.X).(*ssa.Alloc)
+						return isAl || w(x.X)
+					case *ssa.Phi:
+						for _, e := range x.Edges {
+							if !w(e) {
+								return false
+							}
+						}
+						return true
+					case *ssa.Call:
+						if b, isB := x.Call.Value.(*ssa.Builtin); isB && b.Name() == "append" {
+							return w(x.Call.Args[0])
+						}
+					}
+					return false
+				}
+				return w(v)
+			}
+			if fresh(r.Results[0]) && len(looks) > 0 {
+				return
+			}
 			if !core.Precedes(gf, r, func(x ssa.Instruction) bool {
 				for _, l := range looks {
 					if x == l {
@@ -829,7 +886,6 @@ func C19(c *core.Ctx) {
 		}
 	}
 
-
 	// ---- R19.7 a log entry is applied to the router whose log it was fetched from. The
 	// Interest for an entry is made from one router's name and the sequence number read is
 	// recorded for that router, but PrefixTable.Apply picks the table by the ExitRouter the
@@ -958,10 +1014,80 @@ func C19(c *core.Ctx) {
 			}
 			return false
 		}
+		// A result computed from the REQUEST instead of a flag: `return ops.Reset ||
+		// len(ops.Adds) > 0 || len(ops.Removes) > 0`. Each mutation happens under a
+		// condition on the request (inside `if ops.Reset`, inside the loop over ops.Adds);
+		// a leaf that IS that condition is true after the mutation, and a leaf that is only
+		// reached over the failing edge of that condition is not reached after it.
+		fieldOfReq := func(v ssa.Value) string {
+			_, path := core.FieldPath(core.StripConv(v))
+			if len(path) > 0 && strings.HasPrefix(path[len(path)-1], "PrefixOp") {
+				return path[len(path)-1]
+			}
+			return ""
+		}
+		condKey := func(v ssa.Value) string {
+			v = core.Strip(v)
+			if f := fieldOfReq(v); f != "" {
+				if b, isB := v.Type().Underlying().(*types.Basic); isB && b.Kind() == types.Bool {
+					return "set:" + f
+				}
+			}
+			if op, x, y, ok := core.Cmp(v); ok {
+				if l, isLen := core.LenOf(core.StripConv(x)); isLen {
+					if f := fieldOfReq(l); f != "" {
+						if k, isK := core.ConstInt(y); isK && ((op == token.GTR && k == 0) || (op == token.NEQ && k == 0) || (op == token.GEQ && k == 1)) {
+							return "nonempty:" + f
+						}
+					}
+				}
+			}
+			return ""
+		}
+		mutKey := func(m ssa.Instruction) string {
+			for b := m.Block(); b != nil; b = b.Idom() {
+				d := b.Idom()
+				if d == nil || len(d.Instrs) == 0 {
+					continue
+				}
+				iff, isIf := d.Instrs[len(d.Instrs)-1].(*ssa.If)
+				if !isIf || d.Succs[0] != b && !d.Succs[0].Dominates(b) {
+					continue
+				}
+				if k := condKey(iff.Cond); strings.HasPrefix(k, "set:") {
+					return k
+				}
+				// the continuation test of the loop over a list of the request: i < len(ops.X)
+				if op, _, y, ok := core.Cmp(iff.Cond); ok && op == token.LSS {
+					if l, isLen := core.LenOf(core.StripConv(y)); isLen {
+						if f := fieldOfReq(l); f != "" {
+							return "nonempty:" + f
+						}
+					}
+				}
+			}
+			return ""
+		}
+		excluded := func(from *ssa.BasicBlock, key string) bool {
+			for b := from; b != nil; b = b.Idom() {
+				d := b.Idom()
+				if d == nil || len(d.Instrs) == 0 {
+					continue
+				}
+				if iff, isIf := d.Instrs[len(d.Instrs)-1].(*ssa.If); isIf && condKey(iff.Cond) == key && len(d.Succs) == 2 && (d.Succs[1] == b || d.Succs[1].Dominates(b)) && d.Succs[0] != b {
+					return true
+				}
+			}
+			return false
+		}
 		bad := ""
 		for _, m := range muts {
+			mk := mutKey(m)
 			for _, lf := range leaves {
 				if b, isC := core.ConstBool(lf.v); isC && b {
+					continue
+				}
+				if mk != "" && (condKey(lf.v) == mk || excluded(lf.from, mk)) {
 					continue
 				}
 				if reach(m.Block(), lf.from) {
